@@ -355,6 +355,14 @@ func checkBatch(c batchCase) *vt.Fail {
 			dump = parseDump(std[0])
 			work = dump["WORK"]
 		}
+		if len(name) >= 249 {
+			// a work directory with so long a name (script-<name>) cannot be created: the script fails before Setup and
+			// before its first line
+			if sub.Verdict != "fail" || len(std) > 0 || len(r.Probes[name]) > 0 || len(r.Defers[name]) > 0 {
+				return vt.Failf("verdict-differs-from-alone", "script with a %d-byte name: its work directory cannot be created, yet it was reported %s and ran something (%d probes, defers %v)\nlog:\n%s", len(name), sub.Verdict, len(r.Probes[name]), r.Defers[name], trunc(sub.Log, 600))
+			}
+			continue
+		}
 		plan := planOf(s.Files)
 		if plan.Fail != "" {
 			// Setup failed after registering its deferred functions: the run ended as failed, and they must still have run
@@ -376,6 +384,7 @@ func checkBatch(c batchCase) *vt.Fail {
 			if sub.Verdict == "fail" && strings.Contains(sub.Log, "RequireUniqueNames") {
 				continue // setup failed before the first line
 			}
+
 			return vt.Failf("no-environment-dump", "script %s did not get to report its environment (verdict %s)\n%s", name, sub.Verdict, trunc(sub.Log, 600))
 		}
 		h := tsmodel.Host{WorkAbs: work, Path: os.Getenv("PATH"), Short: testing.Short(), Extra: extra, SetupEnv: plan.Vars}
@@ -555,6 +564,13 @@ func genBatch(t *rapid.T) batchCase {
 				rapid.SampledFrom([]string{"-", "-", "error", "fatal", "deferfatal"}).Draw(t, "setupfail"), strings.Join(vars, ","))})
 		}
 		c.Scripts = append(c.Scripts, sc)
+	}
+	if c.Mode == "default" && len(c.Scripts) >= 2 && rapid.IntRange(0, 5).Draw(t, "longname") == 4 {
+		// one script whose name is too long for its work directory (script-<name>) to be created: it fails before its
+		// first line, the others are not disturbed, and nothing is left under the temporary root
+		c.FileNames = make([]string, len(c.Scripts))
+		c.FileNames[rapid.IntRange(0, len(c.Scripts)-1).Draw(t, "longat")] = strings.Repeat("n", 249)
+		return c
 	}
 	if rapid.IntRange(0, 2).Draw(t, "samebase") == 0 {
 		// scripts in different directories with equal (or counter-like) base names
